@@ -30,6 +30,8 @@ func (e *Engine) Prelude() string {
 (define-fun wrap_s64 ((x Int)) Int (- (mod (+ x 9223372036854775808) 18446744073709551616) 9223372036854775808))
 (define-fun go_div ((a Int) (b Int)) Int (ite (>= a 0) (ite (> b 0) (div a b) (- (div a (- b)))) (ite (> b 0) (- (div (- a) b)) (div (- a) (- b)))))
 (define-fun go_rem ((a Int) (b Int)) Int (- a (* b (go_div a b))))
+(declare-fun idx_at (Int Int) Int)
+(assert (forall ((o Int) (i Int)) (! (= (idx_at o i) (+ o i)) :pattern ((idx_at o i)))))
 ; ---- strings ----
 (declare-fun str_len (Str) Int)
 (declare-fun str_at (Str Int) Int)
